@@ -147,9 +147,10 @@ def h12a_step(t: int) -> bool:
 S_NOOP, S_UNSUB_SELF, S_UNSUB_NEXT, S_SUB_NEW = range(4)
 
 
-def h12d_scripts(s0: int, s1: int, s2: int, nmsg: int, key0: int, key1: int) -> bool:
+def h12d_scripts(s0: int, s1: int, s2: int, nmsg: int, key0: int, key1: int, nsub: int = 3) -> bool:
     """
     pre: 0 <= s0 < 4 and 0 <= s1 < 4 and 0 <= s2 < 4
+    pre: 1 <= nsub <= 3
     pre: 1 <= nmsg <= 2
     pre: 0 <= key0 < 2**32 and 0 <= key1 < 2**32
     post: _
@@ -158,13 +159,14 @@ def h12d_scripts(s0: int, s1: int, s2: int, nmsg: int, key0: int, key1: int) -> 
     Stub = pbstub.make_stub(pb.SensorStateResponse)
     with pbstub.install(pb.SensorStateResponse):
         conn, helper, stops = connected_conn()
+        ns = concretize(nsub, 3)  # number of subscribers registered at the start (a single one included)
         scripts = [concretize(s0, 3), concretize(s1, 3), concretize(s2, 3)]
         n = concretize(nmsg, 2)
         logs = [[], [], []]
         new_logs = []
         sent = []
         removers = [None, None, None]
-        registered = [True, True, True]
+        registered = [i < ns for i in range(3)]
 
         def make(i):
             def cb(msg):
@@ -174,7 +176,7 @@ def h12d_scripts(s0: int, s1: int, s2: int, nmsg: int, key0: int, key1: int) -> 
                     removers[i]()
                     registered[i] = False
                 elif sc == S_UNSUB_NEXT:
-                    j = (i + 1) % 3
+                    j = (i + 1) % ns
                     removers[j]()
                     registered[j] = False
                 elif sc == S_SUB_NEW:
@@ -183,7 +185,7 @@ def h12d_scripts(s0: int, s1: int, s2: int, nmsg: int, key0: int, key1: int) -> 
                     conn.add_message_callback(Sub(3 + len(new_logs), lambda m, _l=lst: _l.append(m.key)), (Stub,))
             return cb
 
-        for i in range(3):
+        for i in range(ns):
             removers[i] = conn.add_message_callback(Sub(i, make(i)), (Stub,))
         keys = [key0, key1][:n]
         expect = [[], [], []]
